@@ -94,6 +94,7 @@ pub(super) fn generate_chain_method(
         &method_where_clause,
         has_any_lifetime,
         has_explicit_lifetimes,
+        method_attrs.is_streaming,
         crate_path,
     );
 
@@ -192,8 +193,15 @@ fn generate_method_call_creation(
     method_where_clause: &Option<syn::WhereClause>,
     has_any_lifetime: bool,
     has_explicit_lifetimes: bool,
+    is_streaming: bool,
     crate_path: &TokenStream,
 ) -> TokenStream {
+    // The chain-starting variant of a `more` method asks for more replies, like the method does.
+    let set_more = if is_streaming {
+        quote! { .set_more(true) }
+    } else {
+        quote! {}
+    };
     if !arg_names.is_empty() {
         let param_fields: Vec<_> = arg_infos
             .iter()
@@ -261,7 +269,7 @@ fn generate_method_call_creation(
             let method_call = #wrapper_enum_name::Method(#params_struct_name {
                 #(#arg_names,)*
             });
-            let call = #crate_path::Call::new(method_call);
+            let call = #crate_path::Call::new(method_call) #set_more;
         }
     } else {
         // Create unique enum name for this method to avoid conflicts
@@ -282,7 +290,7 @@ fn generate_method_call_creation(
             }
 
             let method_call = #wrapper_enum_name::Method;
-            let call = #crate_path::Call::new(method_call);
+            let call = #crate_path::Call::new(method_call) #set_more;
         }
     }
 }
